@@ -225,6 +225,9 @@ func baseNext(L *LState) int {
 	if L.GetTop() >= 2 {
 		index = L.Get(2)
 	}
+	if !tb.validNextKey(index) {
+		L.RaiseError("invalid key to 'next'")
+	}
 	key, value := tb.Next(index)
 	if key == LNil {
 		L.Push(LNil)
